@@ -168,7 +168,7 @@ def c11(prog, rep):
     C.rule_m1(prog, rep, C.C11_UNITS)
     O.rule_m2(prog, rep, om, C.C11_UNITS, sm, fault=False)
     O.rule_m3(prog, rep, om, C.C11_UNITS)
-    C.rule_m4(prog, rep, C.C11_UNITS)
+    C.rule_m4(prog, rep, C.C11_UNITS, exact=False)
     H.rule_h2(prog, rep)
     from . import chain as CH, index as IX
     CH.rule_s3(prog, rep, C.C11_UNITS)
@@ -228,6 +228,7 @@ def c12(prog, rep):
     E.rule_r2_move(prog, rep, E.ACCESSOR_UNITS)
     E.rule_r2_fill(prog, rep, E.ACCESSOR_UNITS)
     E.rule_r2_bin(prog, rep, E.ACCESSOR_UNITS)
+    E.rule_r2_src(prog, rep, E.ACCESSOR_UNITS)
     from . import hasharr as HA
     HA.rule_i7(prog, rep)
     rep.explanation = (
@@ -253,6 +254,7 @@ def c16(prog, rep):
     BL.rule_b64_decode_law(prog, rep)
     BL.rule_hex_laws(prog, rep)
     BL.rule_pct_laws(prog, rep)
+    BL.rule_codec_framing(prog, rep)
     rep.explanation = (
         'Exhaustive check of every entry of the five codec tables, read from their initialiser lists in the type-checked AST '
         '(located by role and length inside their functions, not by name): URL classification table (256 entries: value is 0 '
@@ -323,9 +325,12 @@ def c04(prog, rep):
     T.rule_t5(prog, rep)
     T.rule_t5c(prog, rep)
     T.rule_t7(prog, rep)
+    T.rule_t7b(prog, rep)
     T.rule_t8(prog, rep)
     o = T.rule_t1(prog, rep, rid='T1')
     T.rule_t2(prog, rep, o)
+    from . import escape as E
+    E.rule_r2_src(prog, rep, [T.UNIT])
     rep.explanation = (
         'T5 (history-independence / termination precondition): every loop that climbs through the per-node parent link is '
         'reachable only after the root\'s parent link was cleared in the same call (directly or through reset_iterator; the guarded '
@@ -348,6 +353,7 @@ def c05(prog, rep):
     CH.rule_s4(prog, rep)
     CH.rule_s5_cursor(prog, rep, [(CH.UNIT, 'qhashtbl_getnext', 1)])
     CH.rule_s6_clear(prog, rep)
+    CH.rule_s7_fresh_cursor(prog, rep, [(CH.UNIT, 'qhashtbl_getnext', 1)])
     rep.explanation = (
         'Sibling-agreement and protocol rules on qhashtbl.c: S1 put/get/remove compute the chain slot from the same closed '
         'expression (hash function, length argument, modulus field, obtained by expanding local definitions) and the walk resumes '
@@ -376,6 +382,7 @@ def c10(prog, rep):
     IX.rule_vcount(prog, rep)
     IX.rule_helper_index(prog, rep)
     IX.rule_growth(prog, rep)
+    IX.rule_shift_distance(prog, rep)
     C.rule_m1(prog, rep, ['src/containers/qvector.c'])
     rep.explanation = (
         'V1 configuration immutability (who-may-write over all units): objsize/options/initnum are written by qvector() only. IDX: '
@@ -573,7 +580,9 @@ def run(prop, tier):
                 else:
                     rep.broken.append('rule %s did not run' % rid)
     if tier == 'thorough' or os.environ.get('QV_SELFTEST'):
-        from .mutants import run_selftest
+        from .mutants import run_selftest, run_corpus
         run_selftest(prop, rep, spec['fn'])
+        if tier == 'thorough' or os.environ.get('QV_CORPUS'):
+            run_corpus(prop, rep, spec['fn'])
     rep.notes['root'] = root
     return rep.finish()
